@@ -104,7 +104,7 @@ def forbidden_scan():
     return hits
 
 
-def audit(theorems, imports=("Cog",)):
+def audit(theorems, imports):
     """#print axioms for every theorem; returns {name: (ok, axioms or error)}."""
     os.makedirs(WORK, exist_ok=True)
     path = os.path.join(WORK, "Audit_%d.lean" % os.getpid())
@@ -211,7 +211,8 @@ class Check:
         if not ok:
             log("obligation FAILED:", name, str(detail)[:2000])
 
-    def lean_obligations(self, theorems, imports=("Cog",)):
+    def lean_obligations(self, theorems, imports=None):
+        imports = imports or ("Cog.Props.%s" % self.pid,)
         ok, out = lake_build()
         self.oblige("lake build Cog drv", ok, out[-3000:] if not ok else "")
         hits = forbidden_scan()
